@@ -277,11 +277,22 @@ def build(d):
         args = (IL('in', n, w), O('r'))
     else:
         raise ValueError('unknown block ' + b)
+    # A user addresses the inputs/outputs of a block through the very lists he passed: the port-name -> wire map the
+    # check uses is rebuilt from those list objects AFTER construction, so a constructor that reorders its caller's
+    # lists shows up as a wrong truth table.
+    wire_id = {id(wr): nm for nm, wr in ins + outs}
+    lists = [(a, [wire_id[id(x)] for x in a]) for a in args if isinstance(a, list) and a and all(id(x) in wire_id for x in a)]
     try:
         cls(hw, 'dut', *args)
     except Exception as e:                      # includes AssertionError
         py4hw.Wire.prepared = []
         raise Rejected('%s: %s' % (type(e).__name__, e))
+    remap = {}
+    for lst, names in lists:
+        for nm, wr in zip(names, lst):
+            remap[nm] = wr
+    ins = [(nm, remap.get(nm, wr)) for nm, wr in ins]
+    outs = [(nm, remap.get(nm, wr)) for nm, wr in outs]
     return hw, ins, outs
 
 
